@@ -491,6 +491,24 @@ func shrink(bin string, c *Case, rule string, race bool, budget time.Duration) (
 			try(k)
 		}
 	}
+	// 2b. size parameters of workloads that are generated inside the run (smaller is simpler)
+	for _, k := range []string{"nattacks", "nops", "nwalks", "nframes", "entries", "callers", "total", "batches", "nfilters", "churn", "nfiles", "prefill", "nconn", "producers", "filterers", "late", "n"} {
+		for {
+			v, ok := cur.Cfg[k]
+			if !ok || v <= 1 || time.Now().After(deadline) || tried >= 400 {
+				break
+			}
+			c2 := cloneCase(cur)
+			c2.Cfg[k] = v / 2
+			if !try(c2) {
+				c3 := cloneCase(cur)
+				c3.Cfg[k] = v - 1
+				if v-1 == v/2 || !try(c3) {
+					break
+				}
+			}
+		}
+	}
 	// 3. tape: shorter prefixes (an exhausted tape means "lowest id runs": the canonical schedule)
 	if cur.Tape != nil {
 		for len(cur.Tape) > 8 && tried < 400 && time.Now().Before(deadline) {
